@@ -35,14 +35,14 @@ META = {
     'level_note': 'Partial because: (1) data races on fields the model does not list are only covered by the Go race detector during the stress runs (a test); '
                   '(2) torn instruction fetch during the 13-byte entry write and CPU cross-modifying-code behaviour cannot be exhibited by the model - only '
                   'crash-free stress (a test); (3) the 13-byte copy is one model step: Props states what that abstracts (CopyIsAtomic is refuted at byte level by copy_is_not_atomic_at_byte_level; '
-                  'write_excludes_calls proves no modelled thread calls a location while any thread is inside its WriteTo script). Generic functions are not exercised (same-GC-shape sharing is known finding F28-c02-gcshape; under -race GetInnerFunc of goom resolves racefuncenter). internal/patch exports Unpatch/UnpatchInstanceMethod/UnpatchAll which '
+                  'write_excludes_calls proves no modelled thread calls a location while any thread is inside its WriteTo script). Generic targets are exercised only with distinct GC shapes (same-shape sharing is known finding F28-c02-gcshape). internal/patch exports Unpatch/UnpatchInstanceMethod/UnpatchAll which '
                   'touch the patch table WITHOUT patchesLock; they are unreachable from the builder API (verified by grep on every run) and therefore outside '
                   'the property. Trusted: Lean kernel, probe + canonicalisation, kernel mprotect semantics.',
 }
 
 NT = 48
 PROBE_FILES = {'zz_verif_c11_test.go': 'c11/probe_test.go', 'zz_verif_c11_targets_test.go': 'c11/targets_test.go',
-               'zz_verif_c11_variadic_test.go': 'c11/variadic_test.go'}
+               'zz_verif_c11_variadic_test.go': 'c11/variadic_test.go', 'zz_verif_c11_special_test.go': 'c11/special_test.go'}
 NV = 6   # variadic steady targets: locations NT..NT+5 with 0,1,2,0,1,2 leading fixed parameters
 
 
@@ -104,6 +104,16 @@ def gen_round(rng, tier, big=False):
         for f in vs:
             segs.append(f'S mock {f} tab {100 + rng.below(800)} 0')
         steady = steady + vs
+    # function-literal targets (54..57, their bodies call a package-level function that other goroutines call) and two
+    # generic instantiations of distinct GC shapes (58, 59) join the builders' target sets in half of the rounds
+    specials = {}
+    if rng.below(2) == 0 or big:
+        bn = [n for n in own if n != 'S' and own[n]]
+        for f in range(54, 60):
+            if bn and rng.below(3) < 2:
+                n = rng.choice(bn)
+                own[n] = own[n] + [f]
+                specials[f] = n
     kinds = {'mock': 0, 'mock_by_name': 0, 'chk': 0, 'reset': 0, 'ret': 0, 'tab': 0, 'tin': 0, 'cb': 0, 'cbo': 0, 'restub': 0,
              'ext(Matches)': 0, 'shared_placeholder_builders': 0}
     for i in range(nb):
@@ -116,7 +126,8 @@ def gen_round(rng, tier, big=False):
         if shareplh:
             kinds['shared_placeholder_builders'] += 1
             for f in tg:
-                segs.append(f'P {f} {tg[0]}')
+                if f < NT and tg[0] < NT:
+                    segs.append(f'P {f} {tg[0]}')
         mk = 'mockn' if byname else 'mock'
         nops = 2 + rng.below(10 if tier == 'quick' else 24)
         had_ret, origin, mocked, plain = set(), set(), set(), set()
@@ -126,7 +137,14 @@ def gen_round(rng, tier, big=False):
                 f = rng.choice(tg)
                 if shareplh and mocked:       # a shared placeholder holds one relocated function at a time
                     f = sorted(mocked)[0]
-                kind = rng.choice(['cb', 'cbo'] if f in had_ret else ['ret', 'ret', 'tab', 'tin', 'cb', 'cbo'])
+                if f >= 54:   # literal: no origin placeholder of its own; generic: callbacks would receive the dictionary
+                    ks = ['ret', 'tab', 'tin'] + (['cb', 'cb'] if f < 58 else [])
+                    ks = [k for k in ks if not (f in had_ret and k != 'cb')]
+                    if not ks:
+                        continue
+                    kind = rng.choice(ks)
+                else:
+                    kind = rng.choice(['cb', 'cbo'] if f in had_ret else ['ret', 'ret', 'tab', 'tin', 'cb', 'cbo'])
                 if kind in ('ret', 'tab', 'tin'):
                     had_ret.add(f)
                 plain.discard(f)
@@ -137,7 +155,7 @@ def gen_round(rng, tier, big=False):
                 if f in mocked:
                     kinds['restub'] += 1
                 mocked.add(f)
-                segs.append(f'{name} {mk} {f} {kind} {1 + rng.below(90)} {1 if f in origin else 0}')
+                segs.append(f'{name} {mk if f < 54 else "mock"} {f} {kind} {1 + rng.below(90)} {1 if f in origin else 0}')
                 kinds['mock'] += 1
                 kinds['mock_by_name'] += 1 if byname else 0
                 kinds[kind] += 1
@@ -175,7 +193,8 @@ def gen_round(rng, tier, big=False):
         nc = 0
     segs.append(f'N {neigh}')
     line = f'c11.round y={y} d={dbg} K={k} | ' + ' | '.join(segs)
-    return line, {'nb': nb, 'nc': nc, 'neigh': neigh, 'mode': mode, 'kinds': kinds, 'debug': dbg, 'variadic': nvar}
+    return line, {'nb': nb, 'nc': nc, 'neigh': neigh, 'mode': mode, 'kinds': kinds, 'debug': dbg, 'variadic': nvar,
+                  'literal_targets': sum(1 for f in specials if f < 58), 'generic_targets': sum(1 for f in specials if f >= 58)}
 
 
 # ------------------------------------------------------------------ independent expectation (the property, not the model)
@@ -250,7 +269,7 @@ def oracle(line, obs):
     kv = dict(p.split('=', 1) for p in extra.split() if '=' in p)
     races = int(kv.get('races', '0') or 0)
     if main.startswith('crash:') or main.startswith('timeout'):
-        what = 'hang (round killed after 600 s, twice in a row)' if main.startswith('timeout') else main.split()[0]
+        what = 'hang (round killed after 180 s, twice in a row)' if main.startswith('timeout') else main.split()[0]
         return f'process {what} during concurrent mock/reset/call ({kv.get("err", "")})', 'crash'
     if main == 'bad-op':
         return None
@@ -284,7 +303,7 @@ def execute(ops, tag='c11', binary=None):
     open(ops_path, 'w').write('\n'.join(ops) + '\n')
     binary = binary or build_probe()
     outp = os.path.join(C.BUILD, f'{tag}.impl')
-    rc, log = C.run_probe(binary, 'TestVerifC11', ops_path, outp, timeout=6 * 3600, env={'GOOM_DEBUG': ''})
+    rc, log = C.run_probe(binary, 'TestVerifC11', ops_path, outp, timeout=(1800 if len(ops) < 200 else 3 * 3600), env={'GOOM_DEBUG': ''})   # global deadline
     if rc != 0:
         raise C.Infra(f'C11 probe failed rc={rc}:\n{log[-2000:]}')
     impl = C.read_indexed(outp, len(ops))
@@ -536,6 +555,7 @@ def run(tier):
             'callers_max': max((m['nc'] for m in metas), default=0), 'callers_total': sum(m['nc'] for m in metas),
             'layout_modes': {k: sum(1 for m in metas if m['mode'] == k) for k in sorted({m['mode'] for m in metas})},
             'op_kinds': kinds, 'rounds_with_debug_logging': sum(1 for m in metas if m.get('debug')),
+            'function_literal_targets_total': sum(m.get('literal_targets', 0) for m in metas), 'generic_targets_total': sum(m.get('generic_targets', 0) for m in metas),
             'rounds_with_variadic_steady_tables': sum(1 for m in metas if m.get('variadic')), 'variadic_steady_targets_total': sum(m.get('variadic', 0) for m in metas),
             'builder_ops_total': tot('ops'), 'builder_ops_overlapping_another_builder': tot('overlap'),
             'same_page_pairs(target, other used location)': tot('share'), 'targets_whose_13_bytes_cross_a_page': tot('cross'),
